@@ -389,6 +389,10 @@ class WriteFaults(Engine):
             # it outside the output directory (the target is then another, already existing file), or another
             # output base name under which a results file already exists
             scenario["reuse_from"] = rng.choice(["in_place", "in_place", "copy", "basename"])
+            if len(base["records"]) > 1 and rng.random() < 0.5:
+                # no injected fault at all: the reuse run is told to analyse only the first record, so the stored results
+                # of the others stay unconverted - whatever the writer makes of that
+                scenario["reuse_from"] = "limit"
         return scenario
 
     def _gen_sideload(self, rng, records: List[Dict[str, Any]]) -> Dict[str, Any]:
@@ -407,9 +411,21 @@ class WriteFaults(Engine):
                 left, right = min(left, gene[0]), min(right, length - gene[1])
             proto.append({"core_start": gene[0], "core_end": gene[1], "product": "sim-product",
                           "neighbourhood_left": left, "neighbourhood_right": right})
-        return {"tool": {"name": "simtool", "version": "1.0", "description": "simulated annotations",
-                         "configuration": {"verbose": "true"}},
-                "records": [{"name": record["id"], "subregions": sub, "protoclusters": proto}]}
+        first = {"tool": {"name": "simtool", "version": "1.0", "description": "simulated annotations",
+                          "configuration": {"verbose": "true"}},
+                 "records": [{"name": record["id"], "subregions": sub, "protoclusters": proto}]}
+        if rng.random() < 0.35:
+            # a second file: the same tool in another version / configuration, or a tool that happens to carry the
+            # name antiSMASH uses for areas given on the command line
+            gene = rng.choice([g for g in record["genes"] if len(g["parts"]) == 1])["parts"][0]
+            name = rng.choice(["simtool", "simtool", "manual"])
+            second = {"tool": {"name": name, "version": rng.choice(["2.1", "2024-03"]),
+                               "description": rng.choice(["simulated annotations", "curated by the lab"]),
+                               "configuration": {"verbose": "false", "mode": "exploratory"}},
+                      "records": [{"name": record["id"], "subregions": [
+                          {"start": max(0, gene[0] - 5), "end": min(length, gene[1] + 5), "label": "second-file"}]}]}
+            return [first, second]
+        return first
 
     def _gen_directory(self, rng) -> Dict[str, Any]:
         entries = []
@@ -466,10 +482,7 @@ class WriteFaults(Engine):
         P.write_genbank(infile, scenario["records"])
         args = P.base_args(outdir) + list(scenario.get("extra_args", [])) + list(scenario.get("sideload_cli", []))
         if scenario.get("sideload"):
-            side = os.path.join(work, "sideload.json")
-            with open(side, "w", encoding="utf-8") as handle:
-                json.dump(scenario["sideload"], handle)
-            args += ["--sideload", side]
+            args += ["--sideload", P.write_sideload(work, scenario["sideload"])]
         return {"args": args, "input": infile, "hits": scenario["hits"], "domain_hits": scenario["domain_hits"],
                 "domain_lengths": scenario["domain_lengths"], "salt": 0, "outdir": outdir}
 
@@ -576,6 +589,34 @@ class WriteFaults(Engine):
             reuse_args = [arg for arg in inv["args"]]
             source = target
             mode = scenario.get("reuse_from", "in_place")
+            if mode == "limit":
+                stored = json.loads(before_bytes.decode("utf-8"))
+                limited = P.invoke(dict(inv, args=reuse_args + ["--reuse-results", target, "--limit", "1"], input=None,
+                                        hits=[], domain_hits={}))
+                trace.append(["P2-limit", limited["status"]])
+                res.fault("pipeline:unconverted-results-of-skipped-record")
+                if limited["status"] != "exit:0":
+                    res.probe("limited_reuse_failed_and_said_so")
+                    if _read(target) != before_bytes:
+                        res.violate("C20-b", f"reuse run with --limit 1 failed ({limited['status']}) but the existing results "
+                                    "file was modified", sig="C20-b:limit-file-changed")
+                    return self._finish(res, scenario, trace)
+                # it reported success: then nothing that was stored may have been lost on the way
+                try:
+                    now = {record["id"]: sorted(record.get("modules", {})) for record in
+                           json.loads(_read(target).decode("utf-8"))["records"]}
+                except (ValueError, KeyError):
+                    now = {}
+                lost = [record["id"] for record in stored["records"]
+                        if record.get("modules") and now.get(record["id"]) != sorted(record["modules"])]
+                if lost:
+                    res.violate("C20-a", "reuse run with --limit 1 reported success, but the stored results of "
+                                f"{lost} - which it could not convert - are gone from the results file "
+                                f"(before: {[(r['id'], sorted(r.get('modules', {}))) for r in stored['records']]}, "
+                                f"after: {sorted(now.items())})", sig="C20-a:limit-silent-loss")
+                else:
+                    res.probe("limited_reuse_kept_everything")
+                return self._finish(res, scenario, trace)
             if mode == "copy":
                 os.mkdir(os.path.join(work, "elsewhere"))
                 source = os.path.join(work, "elsewhere", "input.json")
